@@ -624,6 +624,9 @@ def variant_facts(body, flow):
         for s in body.stmts(bb):
             if s["k"] == "assign":
                 facts = kill(facts, s["place"]["l"]) if not s["place"]["p"] else facts
+                v_ = _assigned_variant(s)
+                if v_ is not None:
+                    facts = frozenset(set(facts) | {("_%d" % s["place"]["l"], v_)})
         t = body.term(bb)
         outs = []
         if t["k"] == "switch":
@@ -653,6 +656,19 @@ def variant_facts(body, flow):
                     state[s] = j
                     work.append(s)
     return state
+
+
+_ENUMS_WITH_VARIANTS = ("core::option::Option", "core::result::Result", "core::task::Poll", "core::ops::ControlFlow")
+
+
+def _assigned_variant(stmt):
+    """`_x = Enum::Variant{..}` assigned to a whole local: the variant name (for std enums and crate enums)."""
+    if stmt["k"] != "assign" or stmt["place"]["p"]:
+        return None
+    rv = stmt["rv"]
+    if rv["k"] == "aggregate" and rv.get("agg") == "adt" and rv.get("variant") and rv.get("adt") and rv["variant"] != rv["adt"].split("::")[-1]:
+        return rv["variant"]
+    return None
 
 
 def _base_local(pstr):
@@ -808,6 +824,9 @@ def flag_search(body, flow, start, stop=(), init=None, max_states=200000):
                 if s["place"]["l"] in flags:
                     st[s["place"]["l"]] = frozenset((int(s["rv"]["op"]["bits"]) & 1,))
                 vk = kill(vk, s["place"]["l"])
+                v_ = _assigned_variant(s)
+                if v_ is not None:
+                    vk["_%d" % s["place"]["l"]] = v_
         t = body.term(bb)
         outs = []
         if t["k"] == "switch" and t["discr"]["k"] in ("copy", "move") and not t["discr"]["place"]["p"] \
@@ -899,6 +918,9 @@ def sensitive_paths(body, flow, loop_visits=2, max_paths=200000, start=0):
                     src = s["rv"]["op"]["place"]["l"]
                     st[l] = st.get(src, BOTH)
                 vk = kill(vk, l)
+                v_ = _assigned_variant(s)
+                if v_ is not None:
+                    vk["_%d" % l] = v_
         t = body.term(bb)
         outs = []
         if t["k"] == "return":
